@@ -766,11 +766,28 @@ class Interp:
         self.assign(e.target, v, e)
         return v
 
+    def _display_items(self, e) -> list:
+        """the elements of a tuple / list display; `*x` of a known sequence (or of a NamedTuple-like object) contributes its elements"""
+        out = []
+        for x in e.elts:
+            if isinstance(x, ast.Starred):
+                v = self.eval(x.value)
+                seq = self._concrete_seq(v) if not isinstance(v, (dict, set, frozenset, str)) else None
+                if seq is None and isinstance(v, Obj) and "__fields__" in v.attrs:
+                    seq = [v.attrs[f_] for f_ in v.attrs["__fields__"]]
+                if seq is not None and not any(isinstance(y, Each) for y in seq):
+                    out.extend(seq)
+                    continue
+                out.append(("starred", to_term(v)))
+            else:
+                out.append(self.eval(x))
+        return out
+
     def ex_Tuple(self, e):
-        return PyTuple([self.eval(x) for x in e.elts])
+        return PyTuple(self._display_items(e))
 
     def ex_List(self, e):
-        return [self.eval(x) for x in e.elts]
+        return self._display_items(e)
 
     def ex_Set(self, e):
         return set(self._hashable(self.eval(x)) for x in e.elts)
